@@ -6,16 +6,255 @@ open SpsdkVerif SpsdkVerif.Misc SpsdkVerif.Generated
 open SpsdkVerif.Spec
 open SpsdkVerif.Spec.HabRom (bindE chk sub rdN u8at u16be u32be u32le RCmd)
 
+/-- a slice inside the middle part of `pre ++ mid ++ post` -/
+theorem slice_in_mid (pre mid post : Bytes) (o n : Nat) (h : o + n ≤ mid.length) :
+    slice (pre ++ mid ++ post) (pre.length + o) n = slice mid o n := by
+  rw [List.append_assoc, slice_append_right _ _ _ _ (by omega), Nat.add_sub_cancel_left,
+    slice_append_left _ _ _ _ h]
+
+theorem u8at_mid (pre mid post : Bytes) (o v : Nat) (hv : v < 256) (h : slice mid o 1 = [u8 v]) (ho : o + 1 ≤ mid.length) :
+    u8at (pre ++ mid ++ post) (pre.length + o) = .ok v :=
+  u8at_of_slice _ _ _ hv (by rw [slice_in_mid _ _ _ _ _ ho]; exact h)
+
+theorem u16be_mid (pre mid post : Bytes) (o v : Nat) (hv : v < 65536) (h : slice mid o 2 = be16 v) (ho : o + 2 ≤ mid.length) :
+    u16be (pre ++ mid ++ post) (pre.length + o) = .ok v :=
+  u16be_of_slice _ _ _ hv (by rw [slice_in_mid _ _ _ _ _ ho]; exact h)
+
+theorem u32be_mid (pre mid post : Bytes) (o v : Nat) (hv : v < 2 ^ 32) (h : slice mid o 4 = be32 v) (ho : o + 4 ≤ mid.length) :
+    u32be (pre ++ mid ++ post) (pre.length + o) = .ok v :=
+  u32be_of_slice _ _ _ hv (by rw [slice_in_mid _ _ _ _ _ ho]; exact h)
+
+/-- the first eight bytes of a command with a 4-byte header and four byte fields -/
+theorem cmd8 (t l p a b c d : Nat) (rest : Bytes) :
+    hdr t l p ++ [u8 a, u8 b, u8 c, u8 d] ++ rest =
+      u8 t :: u8 (l / 256 % 256) :: u8 (l % 256) :: u8 p :: u8 a :: u8 b :: u8 c :: u8 d :: rest := by
+  simp [hdr, be16_eq]
+
+theorem hdr4 (t l p : Nat) (rest : Bytes) :
+    hdr t l p ++ rest = u8 t :: u8 (l / 256 % 256) :: u8 (l % 256) :: u8 p :: rest := by
+  simp [hdr, be16_eq]
+
+theorem be16_two (l : Nat) : [u8 (l / 256 % 256), u8 (l % 256)] = be16 l := (be16_eq l).symm
+
+def cmdTag : Cmd → Nat
+  | .insKey .. => 0xBE | .autDat .. => 0xCA | .set .. => 0xB1 | .unlock .. => 0xB2 | .nop _ => 0xC0
+def cmdPar : Cmd → Nat
+  | .insKey fl .. => fl | .autDat fl .. => fl | .set itm .. => itm | .unlock e .. => e | .nop p => p
+
+theorem cmdPar_lt (c : Cmd) (hw : c.WF) : cmdPar c < 256 := by
+  cases c with
+  | insKey => exact hw.1
+  | autDat => exact hw.1
+  | set => exact hw.1
+  | unlock => exact hw.1
+  | nop => exact hw
+
+theorem size_lt (c : Cmd) (hw : c.WF) : c.size < 65536 := by
+  cases c with
+  | insKey => simp [Cmd.size]
+  | autDat fl key sf eng cfg loc bl => have := hw.2.2.2.2.2.2.1; simp [Cmd.size]; omega
+  | set => simp [Cmd.size]
+  | unlock => simp only [Cmd.size]; split <;> decide
+  | nop => simp [Cmd.size]
+
+/-- every command starts with its header -/
+theorem encode_hdr (c : Cmd) : ∃ rest, c.encode = hdr (cmdTag c) c.size (cmdPar c) ++ rest := by
+  cases c with
+  | insKey fl cf alg src tgt loc => exact ⟨[u8 cf, u8 alg, u8 src, u8 tgt] ++ be32 loc, by simp [Cmd.encode, Cmd.size, cmdTag, cmdPar, Hab.Spec.cmdINS_KEY]⟩
+  | autDat fl key sf eng cfg loc bl =>
+    exact ⟨[u8 key, u8 sf, u8 eng, u8 cfg] ++ be32 loc ++ encBlocks bl, by simp [Cmd.encode, Cmd.size, cmdTag, cmdPar, Hab.Spec.cmdAUT_DAT]⟩
+  | set itm alg eng cfg => exact ⟨[0, u8 alg, u8 eng, u8 cfg], by simp [Cmd.encode, Cmd.size, cmdTag, cmdPar, Hab.Spec.cmdSET]⟩
+  | unlock e f uid => exact ⟨be32 f ++ (if needUid e f then be64 uid else []), by simp [Cmd.encode, Cmd.size, cmdTag, cmdPar, Hab.Spec.cmdUNLK]⟩
+  | nop p => exact ⟨[], by simp [Cmd.encode, Cmd.size, cmdTag, cmdPar, Hab.Spec.cmdNOP]⟩
+
+theorem cmdTag_lt (c : Cmd) : cmdTag c < 256 := by cases c <;> simp [cmdTag]
+
+/-- header reads of any command -/
+theorem cmd_header_reads (c : Cmd) (hw : c.WF) (pre post : Bytes) :
+    u8at (pre ++ c.encode ++ post) pre.length = .ok (cmdTag c) ∧
+    u16be (pre ++ c.encode ++ post) (pre.length + 1) = .ok c.size ∧
+    u8at (pre ++ c.encode ++ post) (pre.length + 3) = .ok (cmdPar c) := by
+  obtain ⟨rest, e⟩ := encode_hdr c
+  have e' := hdr4 (cmdTag c) c.size (cmdPar c) rest
+  rw [e]
+  refine ⟨?_, ?_, ?_⟩
+  · have := u8at_mid pre (hdr (cmdTag c) c.size (cmdPar c) ++ rest) post 0 _ (cmdTag_lt c) (by rw [e']; rfl) (by simp <;> omega)
+    simpa using this
+  · exact u16be_mid pre _ post 1 _ (size_lt c hw) (by rw [e', ← be16_two]; rfl) (by simp <;> omega)
+  · exact u8at_mid pre _ post 3 _ (cmdPar_lt c hw) (by rw [e']; rfl) (by simp <;> omega)
+
+theorem readBlocks_enc (bl : List (Nat × Nat)) (pre post : Bytes) (hb : ∀ p ∈ bl, p.1 < 2 ^ 32 ∧ p.2 < 2 ^ 32) :
+    HabRom.readBlocks (pre ++ encBlocks bl ++ post) bl.length pre.length = .ok bl := by
+  induction bl generalizing pre with
+  | nil => rfl
+  | cons x r ih =>
+    obtain ⟨a, s⟩ := x
+    have ha := (hb (a, s) (by simp)).1
+    have hs := (hb (a, s) (by simp)).2
+    have e1 : u32be (pre ++ encBlocks ((a, s) :: r) ++ post) pre.length = .ok a := by
+      have := u32be_mid pre (encBlocks ((a, s) :: r)) post 0 a ha
+        (by simp only [encBlocks, List.append_assoc]
+            have := slice_append_mid' [] (be32 a) (be32 s ++ encBlocks r) 0 4 rfl (by simp)
+            simpa using this)
+        (by simp [encBlocks] <;> omega)
+      simpa using this
+    have e2 : u32be (pre ++ encBlocks ((a, s) :: r) ++ post) (pre.length + 4) = .ok s := by
+      exact u32be_mid pre (encBlocks ((a, s) :: r)) post 4 s hs
+        (by simp only [encBlocks]; exact slice_append_mid' (be32 a) (be32 s) (encBlocks r) 4 4 (by simp) (by simp))
+        (by simp [encBlocks] <;> omega)
+    have e3 : pre ++ encBlocks ((a, s) :: r) ++ post = (pre ++ be32 a ++ be32 s) ++ encBlocks r ++ post := by
+      simp [encBlocks, List.append_assoc]
+    have ih' := ih (pre ++ be32 a ++ be32 s) (fun p hp => hb p (by simp [hp]))
+    have hl : (pre ++ be32 a ++ be32 s).length = pre.length + 8 := by simp <;> omega
+    rw [hl, ← e3] at ih'
+    simp only [List.length_cons, HabRom.readBlocks, e1, e2, bindE_ok, ih']
+
+theorem slice8 (a b c d e f g h : UInt8) (r : Bytes) (n : Nat) :
+    slice (a :: b :: c :: d :: e :: f :: g :: h :: r) 8 n = r.take n := rfl
+
+/-- the reader decodes a well-formed command (header fields already read) -/
+theorem readCmd_encode (c : Cmd) (hw : c.WF) (pre post : Bytes) :
+    HabRom.readCmd (pre ++ c.encode ++ post) pre.length (cmdTag c) c.size (cmdPar c) = .ok (toR c) := by
+  cases c with
+  | insKey fl cf alg src tgt loc =>
+    obtain ⟨h1, h2, h3, h4, h5, h6⟩ := hw
+    have e : (Cmd.insKey fl cf alg src tgt loc).encode =
+        u8 Hab.Spec.cmdINS_KEY :: u8 (12 / 256 % 256) :: u8 (12 % 256) :: u8 fl :: u8 cf :: u8 alg :: u8 src :: u8 tgt :: be32 loc := by
+      simp only [Cmd.encode]; exact cmd8 _ _ _ _ _ _ _ _
+    have r4 := u8at_mid pre (Cmd.insKey fl cf alg src tgt loc).encode post 4 cf h2 (by rw [e]; rfl) (by rw [e]; simp <;> omega)
+    have r5 := u8at_mid pre (Cmd.insKey fl cf alg src tgt loc).encode post 5 alg h3 (by rw [e]; rfl) (by rw [e]; simp <;> omega)
+    have r6 := u8at_mid pre (Cmd.insKey fl cf alg src tgt loc).encode post 6 src h4 (by rw [e]; rfl) (by rw [e]; simp <;> omega)
+    have r7 := u8at_mid pre (Cmd.insKey fl cf alg src tgt loc).encode post 7 tgt h5 (by rw [e]; rfl) (by rw [e]; simp <;> omega)
+    have r8 := u32be_mid pre (Cmd.insKey fl cf alg src tgt loc).encode post 8 loc h6 (by rw [e, slice8]; exact List.take_of_length_le (by simp)) (by rw [e]; simp)
+    simp only [HabRom.readCmd, cmdTag, cmdPar, Cmd.size, ↓reduceIte, r4, r5, r6, r7, r8, bindE_ok, toR]
+    exact chk_of _ _ _ (by decide)
+  | autDat fl key sf eng cfg loc bl =>
+    obtain ⟨h1, h2, h3, h4, h5, h6, h7, h8⟩ := hw
+    have e : (Cmd.autDat fl key sf eng cfg loc bl).encode =
+        u8 Hab.Spec.cmdAUT_DAT :: u8 ((12 + 8 * bl.length) / 256 % 256) :: u8 ((12 + 8 * bl.length) % 256) :: u8 fl ::
+          u8 key :: u8 sf :: u8 eng :: u8 cfg :: (be32 loc ++ encBlocks bl) := by
+      simp only [Cmd.encode, List.append_assoc]
+      have := cmd8 Hab.Spec.cmdAUT_DAT (12 + 8 * bl.length) fl key sf eng cfg (be32 loc ++ encBlocks bl)
+      simpa [List.append_assoc] using this
+    have r4 := u8at_mid pre (Cmd.autDat fl key sf eng cfg loc bl).encode post 4 key h2 (by rw [e]; rfl) (by rw [e]; simp <;> omega)
+    have r5 := u8at_mid pre (Cmd.autDat fl key sf eng cfg loc bl).encode post 5 sf h3 (by rw [e]; rfl) (by rw [e]; simp <;> omega)
+    have r6 := u8at_mid pre (Cmd.autDat fl key sf eng cfg loc bl).encode post 6 eng h4 (by rw [e]; rfl) (by rw [e]; simp <;> omega)
+    have r7 := u8at_mid pre (Cmd.autDat fl key sf eng cfg loc bl).encode post 7 cfg h5 (by rw [e]; rfl) (by rw [e]; simp <;> omega)
+    have r8 := u32be_mid pre (Cmd.autDat fl key sf eng cfg loc bl).encode post 8 loc h6
+      (by rw [e, slice8]; exact List.take_append_of_le_length (by simp) |>.trans (List.take_of_length_le (by simp)))
+      (by rw [e]; simp <;> omega)
+    have e12 : pre ++ (Cmd.autDat fl key sf eng cfg loc bl).encode ++ post =
+        (pre ++ (hdr Hab.Spec.cmdAUT_DAT (12 + 8 * bl.length) fl ++ [u8 key, u8 sf, u8 eng, u8 cfg] ++ be32 loc)) ++ encBlocks bl ++ post := by
+      simp [Cmd.encode, List.append_assoc]
+    have rb := readBlocks_enc bl (pre ++ (hdr Hab.Spec.cmdAUT_DAT (12 + 8 * bl.length) fl ++ [u8 key, u8 sf, u8 eng, u8 cfg] ++ be32 loc)) post h8
+    have hl : (pre ++ (hdr Hab.Spec.cmdAUT_DAT (12 + 8 * bl.length) fl ++ [u8 key, u8 sf, u8 eng, u8 cfg] ++ be32 loc)).length = pre.length + 12 := by
+      simp <;> omega
+    rw [hl, ← e12] at rb
+    have hn : (12 + 8 * bl.length - 12) / 8 = bl.length := by omega
+    have hc : (decide (12 ≤ 12 + 8 * bl.length) && (12 + 8 * bl.length - 12) % 8 == 0) = true := by
+      simp
+    simp only [HabRom.readCmd, cmdTag, cmdPar, Cmd.size, ↓reduceIte, r4, r5, r6, r7, r8, bindE_ok, toR, hn, rb]
+    exact chk_of _ _ _ hc
+  | set itm alg eng cfg => rfl
+  | unlock e f uid => rfl
+  | nop p => rfl
+
+
+/-- the reader walks over a list of encoded commands -/
+theorem readCmds_encCmds (l : List CsfCmd) (fuel : Nat) (pre post : Bytes) (hw : ∀ c ∈ l, c.cmd.WF)
+    (hf : l.length ≤ fuel) :
+    HabRom.readCmds (pre ++ encCmds l ++ post) fuel pre.length (pre.length + cmdsSize l) = .ok (l.map (fun c => toR c.cmd)) := by
+  induction l generalizing fuel pre with
+  | nil =>
+    cases fuel with
+    | zero => rfl
+    | succ f => simp [HabRom.readCmds, cmdsSize]
+  | cons c r ih =>
+    cases fuel with
+    | zero => simp at hf
+    | succ f =>
+      have hwc := hw c (by simp)
+      have hsz := Cmd.size_ge c.cmd
+      have e : pre ++ encCmds (c :: r) ++ post = pre ++ c.cmd.encode ++ (encCmds r ++ post) := by
+        simp [encCmds, List.append_assoc]
+      obtain ⟨r1, r2, r3⟩ := cmd_header_reads c.cmd hwc pre (encCmds r ++ post)
+      have rc := readCmd_encode c.cmd hwc pre (encCmds r ++ post)
+      have hnot : ¬ pre.length ≥ pre.length + cmdsSize (c :: r) := by simp [cmdsSize]; omega
+      have hsize4 : c.cmd.size % 4 = 0 := by
+        cases c.cmd with
+        | insKey => simp [Cmd.size]
+        | autDat fl key sf eng cfg loc bl => simp [Cmd.size]; omega
+        | set => simp [Cmd.size]
+        | unlock e f uid => simp only [Cmd.size]; split <;> decide
+        | nop => simp [Cmd.size]
+      have hchk : (decide (4 ≤ c.cmd.size) && c.cmd.size % 4 == 0 &&
+          decide (pre.length + c.cmd.size ≤ pre.length + cmdsSize (c :: r))) = true := by
+        simp [cmdsSize, hsize4]; omega
+      have e2 : pre ++ c.cmd.encode ++ (encCmds r ++ post) = (pre ++ c.cmd.encode) ++ encCmds r ++ post := by
+        simp [List.append_assoc]
+      have ih' := ih f (pre ++ c.cmd.encode) (fun x hx => hw x (by simp [hx])) (by simp at hf; omega)
+      have hl : (pre ++ c.cmd.encode).length = pre.length + c.cmd.size := by simp [encode_length]
+      have hst : pre.length + c.cmd.size + cmdsSize r = pre.length + cmdsSize (c :: r) := by simp [cmdsSize]; omega
+      rw [hl, hst, ← e2] at ih'
+      rw [e]
+      unfold HabRom.readCmds
+      rw [if_neg hnot, r1, bindE_ok, r2, bindE_ok, r3, bindE_ok, chk_of _ _ _ hchk, rc, bindE_ok, ih', bindE_ok]
+      rfl
+
 /-- header of the exported CSF as the reader sees it -/
 theorem csf_header_read (version : Nat) (cmds : List CsfCmd) (h : CsfWF version cmds) :
     u8at (csfBytes version cmds) 0 = .ok 0xD4 ∧ u16be (csfBytes version cmds) 1 = .ok (csfHdrLen cmds) ∧
     u8at (csfBytes version cmds) 3 = .ok version := by
-  sorry
+  obtain ⟨hv, _, hfit⟩ := h
+  have hlen : csfHdrLen cmds < 65536 := by
+    have := csfBase_length version cmds
+    have e : HabConsts.csfSize = 8192 := rfl
+    simp only [List.length_append] at hfit
+    omega
+  have e : csfBytes version cmds = [] ++ (hdr Hab.Spec.tagCSF (csfHdrLen cmds) version ++
+      (encCmds (assignLocs (csfHdrLen cmds) cmds) ++ encData cmds)) ++
+      zeros (alignUp (csfBase version cmds ++ encData cmds).length HabConsts.csfSize - (csfBase version cmds ++ encData cmds).length) := by
+    simp [csfBytes, padAlign, csfBase, List.append_assoc]
+  rw [e]
+  generalize (encCmds (assignLocs (csfHdrLen cmds) cmds) ++ encData cmds) = R
+  generalize zeros (alignUp (csfBase version cmds ++ encData cmds).length HabConsts.csfSize - (csfBase version cmds ++ encData cmds).length) = Z
+  have e' := hdr4 Hab.Spec.tagCSF (csfHdrLen cmds) version R
+  refine ⟨?_, ?_, ?_⟩
+  · have := u8at_mid [] (hdr Hab.Spec.tagCSF (csfHdrLen cmds) version ++ R) Z 0 Hab.Spec.tagCSF (by decide) (by rw [e']; rfl) (by simp <;> omega)
+    have e4 : (Except.ok Hab.Spec.tagCSF : Except String Nat) = .ok 212 := rfl
+    rw [e4] at this
+    simpa using this
+  · have := u16be_mid [] (hdr Hab.Spec.tagCSF (csfHdrLen cmds) version ++ R) Z 1 (csfHdrLen cmds) hlen (by rw [e', ← be16_two]; rfl) (by simp <;> omega)
+    simpa using this
+  · have := u8at_mid [] (hdr Hab.Spec.tagCSF (csfHdrLen cmds) version ++ R) Z 3 version hv (by rw [e']; rfl) (by simp <;> omega)
+    simpa using this
 
 /-- the reader's command list of an exported CSF = the model's commands (data references assigned), translated -/
 theorem readCmds_csfBytes (version : Nat) (cmds : List CsfCmd) (h : CsfWF version cmds) :
     HabRom.readCmds (csfBytes version cmds) (csfHdrLen cmds) 4 (csfHdrLen cmds)
       = .ok ((assignLocs (csfHdrLen cmds) cmds).map (fun c => toR c.cmd)) := by
-  sorry
+  obtain ⟨hv, hw, hfit⟩ := h
+  have hblen := csfBase_length version cmds
+  have e8 : HabConsts.csfSize = 8192 := rfl
+  have hdata : ∀ c ∈ cmds, needsRef c.cmd = true → ∀ d, c.data = some d → True := fun _ _ _ _ _ => trivial
+  -- assigned commands are well-formed (offsets stay below 2^32)
+  have hwf : ∀ c ∈ assignLocs (csfHdrLen cmds) cmds, c.cmd.WF := by
+    apply assignLocs_WF (csfHdrLen cmds) cmds (fun c hc => (hw c hc).1)
+    have := hfit
+    rw [List.length_append, hblen, e8] at this
+    omega
+  have e : csfBytes version cmds = hdr Hab.Spec.tagCSF (csfHdrLen cmds) version ++
+      encCmds (assignLocs (csfHdrLen cmds) cmds) ++
+      (encData cmds ++ zeros (alignUp (csfBase version cmds ++ encData cmds).length HabConsts.csfSize - (csfBase version cmds ++ encData cmds).length)) := by
+    simp [csfBytes, padAlign, csfBase, List.append_assoc]
+  have := readCmds_encCmds (assignLocs (csfHdrLen cmds) cmds) (csfHdrLen cmds) (hdr Hab.Spec.tagCSF (csfHdrLen cmds) version)
+    (encData cmds ++ zeros (alignUp (csfBase version cmds ++ encData cmds).length HabConsts.csfSize - (csfBase version cmds ++ encData cmds).length))
+    hwf (by
+      have := length_le_cmdsSize (assignLocs (csfHdrLen cmds) cmds)
+      rw [cmdsSize_assignLocs] at this
+      have e : csfHdrLen cmds = 4 + cmdsSize cmds := rfl
+      omega)
+  rw [hdr_length, cmdsSize_assignLocs, ← e] at this
+  exact this
 
 end SpsdkVerif.Hab
